@@ -38,6 +38,9 @@ func (self ValueObject) Display() (string, *Interrupt) {
 
 func (self ValueObject) IsEqual(other Value) (bool, *Interrupt) {
 	otherObj := other.(ValueObject)
+	if len(self.FieldsInternal) != len(otherObj.FieldsInternal) {
+		return false, nil // the loop below only shows self ⊆ other
+	}
 
 	for key, value := range self.FieldsInternal {
 		otherValue, found := otherObj.FieldsInternal[key]
